@@ -6,6 +6,7 @@ import (
 	"go/parser"
 	"go/token"
 	"go/types"
+	"golang.org/x/tools/go/packages"
 	"math/big"
 	"sort"
 	"strings"
@@ -17,38 +18,40 @@ func parseGoExpr(s string) (ast.Expr, error) { return parser.ParseExpr(rewriteIm
 
 // extra Ctx/Env fields are declared here to keep state.go readable
 type ctxExtra struct {
-	strLits     []string
-	sentinels   map[string]bool
-	noSafety    bool
-	inlineTag   string
-	heapSorts   map[string]string
-	heapKeySorts map[string]string
-	knownRefs   []string
-	freshRefs   map[string]bool
-	lossless    bool
-	frames      []*frame
-	unspecified map[string]bool
-	calleesUsed map[string]bool
-	typeTags    map[string]int
-	modDepth    int
+	strLits         []string
+	sentinels       map[string]bool
+	noSafety        bool
+	inlineTag       string
+	heapSorts       map[string]string
+	heapKeySorts    map[string]string
+	knownRefs       []string
+	freshRefs       map[string]bool
+	lossless        bool
+	frames          []*frame
+	unspecified     map[string]bool
+	calleesUsed     map[string]bool
+	typeTags        map[string]int
+	modDepth        int
 	loopHavocFields map[string]bool
-	entryArgs   map[string]Val
-	strict      bool
-	writes      map[string]bool
-	lockedOnce  map[string]bool
-	freshList   []string
-	ptrField    map[string]int
-	freshErrs   []string
-	lastDirect  map[string][]types.Object
-	lastIndirect map[string]bool
-	lastExprs   map[string][]ast.Expr
-	callOcc     map[*ast.CallExpr]int
-	closureMode bool
-	loopIdx     map[int]Val
-	loopColl    map[int]Val
-	captured    map[types.Object]Val
-	loopIndex   map[ast.Node]int
-	curLoop     ast.Node
+	frameAllPrefix  [][2]string // "modifies GenericType.f": struct-sort prefix and field
+	loopNodes       []ast.Node
+	entryArgs       map[string]Val
+	strict          bool
+	writes          map[string]bool
+	lockedOnce      map[string]bool
+	freshList       []string
+	ptrField        map[string]int
+	freshErrs       []string
+	lastDirect      map[string][]types.Object
+	lastIndirect    map[string]bool
+	lastExprs       map[string][]ast.Expr
+	callOcc         map[*ast.CallExpr]int
+	closureMode     bool
+	loopIdx         map[int]Val
+	loopColl        map[int]Val
+	captured        map[types.Object]Val
+	loopIndex       map[ast.Node]int
+	curLoop         ast.Node
 }
 
 func newCtx(e *Engine, fi *FuncInfo) *Ctx {
@@ -120,6 +123,7 @@ func (e *Engine) verifyFunc(fi *FuncInfo) *FuncResult {
 	env := &Env{c: c, fn: fi, pkg: c.pkgRefOf(fi), bound: map[string]Val{}}
 	st := newState()
 	c.entry = st
+	c.assumeAxioms(st, fi.Pkg)
 	sig := fi.Obj.Type().(*types.Signature)
 	rv, ps, rs := paramObjs(fi)
 	bind := map[string]Val{}
@@ -182,6 +186,10 @@ func (e *Engine) verifyFunc(fi *FuncInfo) *FuncResult {
 			}
 			if tt := pre.frameType(base); tt != nil {
 				ss := pre.sortOf(tt)
+				if c.genericInstances(tt, ss) != nil {
+					c.frameAllPrefix = append(c.frameAllPrefix, [2]string{ss + "_", field})
+					continue
+				}
 				for _, f := range c.structFields(ss, field) {
 					c.frameAll[ss+"."+f] = true
 					c.frameAll[ss+".$"+f] = true
@@ -277,6 +285,17 @@ func (c *Ctx) frameObligations(st, entry *State, ri int) {
 		}
 		if h == h0 || c.frameAll[key] {
 			continue
+		}
+		if ss, fld, ok := cutLast(key, "."); ok {
+			skip := false
+			for _, pf := range c.frameAllPrefix {
+				if strings.HasPrefix(ss, pf[0]) && (pf[1] == "*" || pf[1] == strings.TrimPrefix(fld, "$")) {
+					skip = true
+				}
+			}
+			if skip {
+				continue
+			}
 		}
 		// lock-guarded fields of monitor objects are unstable outside their lock: not part of any caller-visible frame
 		if ss, fld, ok := cutLast(key, "."); ok {
@@ -507,8 +526,77 @@ func (env *Env) lockOp(recvExpr ast.Expr, op string, st *State, pos token.Pos) {
 }
 
 // verifyLemma: a stand-alone statement over contracts and ghost functions.
+// assumeAxioms adds the "//@ axiom" facts of a package (assumed facts about library functions,
+// listed in the trusted base) to a fresh entry state.
+func (c *Ctx) assumeAxioms(st *State, pkg *packages.Package) {
+	for _, l := range c.e.lemmas {
+		if !l.Axiom || l.Pkg != pkg {
+			continue
+		}
+		env := &Env{c: c, pkg: &pkgRef{info: l.Pkg.TypesInfo, types: l.Pkg.Types, files: l.Pkg.Syntax}, contract: true, bound: map[string]Val{}, noSafety: true}
+		var binders, bnames []string
+		ok := true
+		for _, p := range l.Params {
+			te, err := parser.ParseExpr(p.Type)
+			if err != nil {
+				ok = false
+				break
+			}
+			t := env.typeOfExpr(te)
+			if t == nil {
+				ok = false
+				break
+			}
+			bn := c.freshBound(p.Name)
+			binders = append(binders, fmt.Sprintf("(%s %s)", bn, env.sortOf(t)))
+			bnames = append(bnames, bn)
+			env.bound[p.Name] = Val{T: bn, Ty: t}
+			env.qvars = append(env.qvars, fmt.Sprintf("(%s %s)", bn, env.sortOf(t)))
+			env.qnames = append(env.qnames, bn)
+		}
+		if !ok {
+			c.unsupported("axiom %s: parameter types", l.Name)
+			continue
+		}
+		scratch := st.clone()
+		n := len(scratch.pc)
+		var pre, post []string
+		for _, r := range l.Requires {
+			pre = append(pre, env.evalBool(r.Expr, scratch))
+		}
+		for _, en := range l.Ensures {
+			post = append(post, env.evalBool(en.Expr, scratch))
+		}
+		wrap := func(f string) string {
+			if len(binders) == 0 {
+				return f
+			}
+			return fmt.Sprintf("(forall (%s) %s)", strings.Join(binders, " "), f)
+		}
+		for _, ex := range untag(scratch.pc[n:]) {
+			mentions := false
+			for _, bn := range bnames {
+				if strings.Contains(ex, bn) {
+					mentions = true
+				}
+			}
+			if mentions {
+				st.assumeOnce(wrap(ex))
+			} else {
+				st.assumeOnce(ex)
+			}
+		}
+		st.assume(wrap(implies(and(pre...), and(post...))))
+		c.trust("axiom " + l.Name + " (assumed): " + l.Ensures[0].Text)
+	}
+}
+
 func (e *Engine) verifyLemma(l *Lemma) *FuncResult {
 	res := &FuncResult{Key: "lemma." + l.Name}
+	if l.Axiom {
+		res.Trusted = []string{"axiom " + l.Name + " (assumed, not proved)"}
+		return res
+	}
 	fi := &FuncInfo{Key: "lemma." + l.Name, Pkg: l.Pkg, Contract: &Contract{Props: l.Props}}
 	c := newCtx(e, fi)
 	c.noSafety = true
@@ -522,6 +610,7 @@ func (e *Engine) verifyLemma(l *Lemma) *FuncResult {
 	st := newState()
 	c.entry = st
 	env := &Env{c: c, fn: nil, pkg: &pkgRef{info: l.Pkg.TypesInfo, types: l.Pkg.Types, files: l.Pkg.Syntax}, contract: true, bound: map[string]Val{}, noSafety: true}
+	c.assumeAxioms(st, l.Pkg)
 	for _, p := range l.Params {
 		te, err := parser.ParseExpr(p.Type)
 		if err != nil {
@@ -564,7 +653,9 @@ func (c *Ctx) checkReturn(fi *FuncInfo, con *Contract, rstate, entrySnap *State,
 		post := c.contractEnv(fi, entrySnap, bind, vals, nil)
 		for k, en := range con.Ensures {
 			g := post.evalBool(en.Expr, rstate)
+			c.curGroup = en.Group
 			c.addObl(rstate, fmt.Sprintf("post#%d@ret%d", k, ri), "post", g, c.e.pos(fi.Decl.Pos()), "ensures "+en.Text, en.Props)
+			c.curGroup = ""
 		}
 		if con.HasMod {
 			c.frameObligations(rstate, entrySnap, ri)
